@@ -32,7 +32,8 @@ Definition ir_expected (ir fs alpha : list nat) : list nat :=
 Definition ir_ok (ir fs alpha newir : list nat) : bool :=
   nodupb newir && list_nat_eqb (sort newir) (ir_expected ir fs alpha).
 
-(* known-finding class: an inner-ring key outside the current alphabet is one of the proposed alphabet keys *)
+(* coverage class (the former finding ir-extra-key-promoted): an inner-ring key outside the current
+   alphabet is one of the proposed alphabet keys *)
 Definition promoted_extra (ir fs alpha : list nat) : bool :=
   existsb (fun x => negb (mem x fs) && mem x alpha) ir.
 
@@ -72,11 +73,10 @@ Definition ref_ir_ok (c : case) : bool :=
   let '(fs, mn, ir, astat, alpha, irstat, newir) := c in
   if in_contract fs mn ir && Nat.eqb astat 0 then Nat.eqb irstat 0 && ir_ok ir fs alpha newir else true.
 
-Definition known (c : case) : bool :=
+Definition promoted (c : case) : bool :=
   let '(fs, mn, ir, astat, alpha, irstat, newir) := c in promoted_extra ir fs alpha.
 
 Definition ref_full_ok (c : case) : bool := ref_alpha_ok c && ref_ir_ok c.
-Definition ref_partial_ok (c : case) : bool := ref_alpha_ok c && (known c || ref_ir_ok c).
 
 Fixpoint mism_from (i : nat) (f : case -> bool) (cs : list case) : list nat :=
   match cs with
@@ -85,8 +85,7 @@ Fixpoint mism_from (i : nat) (f : case -> bool) (cs : list case) : list nat :=
   end.
 Definition model_mismatches := mism_from 0 model_ok.
 Definition ref_full_mismatches := mism_from 0 ref_full_ok.
-Definition ref_partial_mismatches := mism_from 0 ref_partial_ok.
-Definition known_class := mism_from 0 (fun c => negb (known c)).
+Definition promoted_class := mism_from 0 (fun c => negb (promoted c)).
 
 (* --- finite universe of 8 keys: subsets as bit masks --- *)
 Definition keys_of_mask (m : nat) : list nat := filter (fun i => Nat.testbit m i) (seq 0 8).
